@@ -28,7 +28,7 @@ RULE = (
 )
 FAULT_KEYS = ["row_permute", "adversarial_choice", "shuffle", "exchange_accepted"]
 PROBE_KEYS = ["long_allele_traces", "long_locus_traces", "summaries_checked", "burn_values", "multi_genotype_logs", "mode_ties", "support_ties", "incongruence_checked", "incongruence_1", "incongruence_2",
-              "incongruence_tie_skip", "as_array_checked", "ped_individuals", "chains_disagree", "cli_reports_checked", "cli_null_alleles"]
+              "incongruence_tie_skip", "as_array_checked", "ped_individuals", "chains_disagree", "cli_reports_checked", "cli_null_alleles", "cli_allele_frequencies_checked"]
 OPTIONAL_PROBES = {"quick": ("cli_null_alleles",), "thorough": ()}
 COMPONENTS = {
     "real": ["mchap.assemble.classes.{GenotypeMultiTrace,PosteriorGenotypeDistribution,GenotypeSupportDistribution}", "mchap.calling.classes.{GenotypeAllelesMultiTrace,PosteriorGenotypeAllelesDistribution}",
@@ -230,6 +230,24 @@ def check_cli(ctx):
             if "MCI" in fld and fld["MCI"] not in (".", ""):
                 judge_assemble_incongruence(ctx, lambda thr_: int(fld["MCI"]), chains, burn, support_of, rec["ploidy"],
                                             0.60 if cfg.get("mci_threshold") is None else cfg["mci_threshold"], where=" [printed MCI; %s]" % where)
+            # per-allele posterior frequency / occurrence of every allele the record lists (the reference included, masked or not)
+            if fld.get("AFP") not in (None, ".", "") and fld.get("AOP") not in (None, ".", ""):
+                afp = [float(x) if x != "." else float("nan") for x in fld["AFP"].split(",")]
+                aop = [float(x) if x != "." else float("nan") for x in fld["AOP"].split(",")]
+                if len(afp) == len(seqs) and len(aop) == len(seqs):
+                    for ai, seq in enumerate(seqs):
+                        try:
+                            hk = tuple(al.index(seq[off]) for off, al in zip(rec["snv_offsets"], rec["snv_alleles"]))
+                        except ValueError:
+                            continue
+                        ef = sum(p_ * k_.count(hk) / rec["ploidy"] for k_, p_ in dist.items())
+                        eo = sum(p_ for k_, p_ in dist.items() if hk in k_)
+                        if not (abs(afp[ai] - ef) <= 0.00051) or not (abs(aop[ai] - eo) <= 0.00051):
+                            fail(ctx, "cli_report", "allele %d of the record: AFP=%r AOP=%r printed; its haplotype has posterior frequency %.6f and occurrence %.6f in the retained trace (%s)"
+                                 % (ai, afp[ai], aop[ai], ef, eo, where), kind="cli")
+                    ctx.counters.inc("cli_allele_frequencies_checked")
+                else:
+                    fail(ctx, "cli_report", "AFP / AOP list %d / %d values for %d alleles (%s)" % (len(afp), len(aop), len(seqs), where), kind="cli")
             if "." in gt:
                 # a haplotype below --haplotype-posterior-threshold is printed as a null allele: the genotype is not fully spelled
                 ctx.counters.inc("cli_null_alleles")
